@@ -46,7 +46,9 @@ ENCODED = ["HeapCellValue::order_category", "TermOrderCategory (derived Ord)", "
            "<Number as Ord>::cmp (fixnum, float arms)",
            "ParallelHeapIter::next compound arms (MIR: push order, sides, (arity, name) comparisons, "
            "Str x Str argument loop)",
-           "compare_pstr_slices::{closure} (MIR: tail indices, mismatch window)"]
+           "compare_pstr_slices::{closure} (MIR: tail indices, mismatch window)",
+           "Number::{cmp, eq}: all 40 representation arms (MIR; shared with C04 / C05)",
+           "ParallelHeapIter::parallel_cmp, MachineState::compare_term_test (MIR: folding of the pair stream)"]
 ASSUME = ["inline atoms only (ASCII, 1 symbolic byte per atom)", "4-cell heap",
           "M: no Str cell carries './2' (lists are Lis/PStrLoc cells: parser Term::Cons, functor/3), so the "
           "pushes of the four Str x list arms are unreachable (z3 decides the infeasibility)",
@@ -78,6 +80,15 @@ def mpost(results, tier="quick"):
         EXIT_INCONCLUSIVE if EXIT_INCONCLUSIVE in (e1, e2) else EXIT_OK)
     if "mirsmt_violations" in r2:
         r.setdefault("mirsmt_violations", []).extend(r2["mirsmt_violations"])
+    # numbers of the same class compare by value: the 40 representation arms of Number::{cmp, eq}
+    from vlib.mirsmt import numarms
+    r3 = numarms.run(label="C13")
+    r["evaluations"] = r.get("evaluations", 0) + r3.get("evaluations", 0)
+    r["distinct_nontrivial"] = r.get("distinct_nontrivial", 0) + r3.get("distinct_nontrivial", 0)
+    r.setdefault("samples", []).extend(r3.get("samples", [])[:6])
+    e3 = r3.get("exit", EXIT_OK)
+    if e3 == EXIT_VIOLATION or (e3 == EXIT_INCONCLUSIVE and r["exit"] == EXIT_OK):
+        r["exit"] = e3
     r.setdefault("samples", []).append(
         {"query": "<Atom as Ord>::cmp compares the as_str texts, self first", "answer": ok})
     r["evaluations"] = r.get("evaluations", 0) + 1
